@@ -431,3 +431,132 @@ Section MedianFlip.
       split; [apply eqv_dR, H0|apply eqv_fR, H0].
   Qed.
 End MedianFlip.
+
+(* ------------------------------------------------------------------ bilateral filter
+
+   The window of the code is win = min(rows, cols, int(3 sigma_space + 1)), its centre is pixel int(win / 2) of the
+   window: the window is symmetric about its centre exactly when win is ODD (an even window has one more row above
+   than below: the flip is then NOT respected, by the code either).  The two Gaussian kernels are data: the spatial
+   kernel must be symmetric in rows (sk (win-1-a) b = sk a b, as a Gaussian of the distance to the centre is), the
+   range kernel must be a function of the NUMBER it is given. *)
+
+Definition peq (p q : Q * Q) : Prop := (fst p == fst q)%Q /\ (snd p == snd q)%Q.
+
+Lemma sumq_F2 : forall (g : Q * Q -> Q) t m, (forall p q, peq p q -> (g p == g q)%Q) ->
+  Forall2 peq t m -> (Spec.Filters.sumq (map g t) == Spec.Filters.sumq (map g m))%Q.
+Proof.
+  intros g t m Hg H. induction H as [|p q t m Hpq H IH]; cbn [map Spec.Filters.sumq fold_right]; [reflexivity|].
+  fold (Spec.Filters.sumq (map g t)). fold (Spec.Filters.sumq (map g m)). rewrite IH, (Hg p q Hpq). reflexivity.
+Qed.
+Lemma sumq_perm : forall l m, Permutation l m -> (Spec.Filters.sumq l == Spec.Filters.sumq m)%Q.
+Proof.
+  induction 1 as [|x l m H IH|x y l|l1 l2 l3 H1 IH1 H2 IH2]; cbn [Spec.Filters.sumq fold_right].
+  - reflexivity.
+  - fold (Spec.Filters.sumq l). fold (Spec.Filters.sumq m). rewrite IH. reflexivity.
+  - fold (Spec.Filters.sumq l). ring.
+  - rewrite IH1. exact IH2.
+Qed.
+
+Lemma wmean_termsperm : forall t' t m, Forall2 peq t' m -> Permutation m t -> (Filters.wmean t' == Filters.wmean t)%Q.
+Proof.
+  intros t' t m H1 H2. unfold Filters.wmean. rewrite !FiltersP.qsum_sumq.
+  rewrite (sumq_F2 (fun p => fst p * snd p)%Q t' m) by (try assumption; intros p q [A B]; rewrite A, B; reflexivity).
+  rewrite (sumq_F2 fst t' m) by (try assumption; intros p q [A B]; exact A).
+  rewrite (sumq_perm _ _ (Permutation_map (fun p : Q * Q => (fst p * snd p)%Q) H2)).
+  rewrite (sumq_perm _ _ (Permutation_map fst H2)). reflexivity.
+Qed.
+
+Section BilateralFlip.
+  Variables (inv B : Z) (sigma : Q) (sk : Z -> Z -> Q) (rk : Q -> Q) (ny nx : Z).
+  Hypothesis HB : 1 <= B.
+  Let win := Filters.win_width ny nx sigma.
+  Let off := win / 2.
+  Hypothesis Hwin : 0 < win.
+  Hypothesis Hodd : Z.odd win = true.
+  Hypothesis Hsk : forall a b, 0 <= a < win -> 0 <= b < win -> (sk (win - 1 - a)%Z b == sk a b)%Q.
+  Hypothesis Hrk : forall x y, (x == y)%Q -> (rk x == rk y)%Q.
+
+  Lemma bilateral_at_px : forall disp mask r c,
+    fst (Filters.bilateral_filter_disparity inv B ny nx sigma sk rk disp mask) r c =
+    let md := Filters.masked_data inv disp mask in
+    if Filters.is_none (md r c) then disp r c
+    else if (off <=? r) && (r <? off + (ny - win + 1)) && (off <=? c) && (c <? off + (nx - win + 1))
+         then Filters.bilateral_at sk rk md win off (r - off) (c - off) else md r c.
+  Proof.
+    intros disp mask r c. unfold Filters.bilateral_filter_disparity, Filters.filter_bilateral. cbv zeta. cbn [fst].
+    destruct (Filters.is_none (Filters.masked_data inv disp mask r c)) eqn:En; [reflexivity|].
+    fold win. fold off. rewrite loop2_spec by (unfold win, Filters.win_width; lia). reflexivity.
+  Qed.
+
+  Lemma bil_terms_flip : forall (md' md : Filters.map2) i' i j cv' cv, (cv' == cv)%Q ->
+    (forall a b, 0 <= a < win -> 0 <= b < win -> oq_eqv (md' (i' + a) (j + b)) (md (i + (win - 1 - a)) (j + b))) ->
+    (Filters.wmean (Filters.bil_terms sk rk md' win i' j cv') == Filters.wmean (Filters.bil_terms sk rk md win i j cv))%Q.
+  Proof.
+    intros md' md i' i j cv' cv Hcv H.
+    set (G := fun a' a => flat_map (fun b => match md (i + a') (j + b) with
+                                             | None => []
+                                             | Some v => [((sk a b * rk (v - cv))%Q, v)]
+                                             end) (Arr.zrange win)).
+    apply (wmean_termsperm _ _ (flat_map (fun a => G (win - 1 - a) (win - 1 - a)) (Arr.zrange win))).
+    - unfold Filters.bil_terms. apply F2_flat_map_in. intros a Ha. unfold G. apply F2_flat_map_in. intros b Hb.
+      apply FiltersP.In_zrange in Ha. apply FiltersP.In_zrange in Hb. pose proof (H a b Ha Hb) as E.
+      destruct (md' (i' + a) (j + b)) as [v'|], (md (i + (win - 1 - a)) (j + b)) as [v|]; cbn in E; try tauto; constructor; [|constructor].
+      split; cbn [fst snd]; [|exact E].
+      rewrite (Hsk a b Ha Hb). rewrite (Hrk (v' - cv') (v - cv)) by (rewrite E, Hcv; reflexivity). reflexivity.
+    - rewrite <- (flat_map_map (fun a' => G a' a') (fun a => win - 1 - a)).
+      unfold Filters.bil_terms. apply Permutation_flat_map. apply zrange_rev_perm.
+  Qed.
+
+  Lemma bilateral_map_flip : forall disp' mask' disp mask,
+    (forall r c, 0 <= r < ny -> 0 <= c < nx -> oq_eqv (disp' r c) (disp (ny - 1 - r) c) /\ mask' r c = mask (ny - 1 - r) c) ->
+    forall r c, 0 <= r < ny -> 0 <= c < nx ->
+    oq_eqv (fst (Filters.bilateral_filter_disparity inv B ny nx sigma sk rk disp' mask') r c)
+           (fst (Filters.bilateral_filter_disparity inv B ny nx sigma sk rk disp mask) (ny - 1 - r) c).
+  Proof.
+    intros disp' mask' disp mask H r c Hr Hc. pose proof (odd_half win Hwin Hodd) as Ew. fold off in Ew.
+    assert (Hle : win <= ny /\ win <= nx) by (unfold win, Filters.win_width; lia).
+    assert (Hmd : forall r c, 0 <= r < ny -> 0 <= c < nx ->
+              oq_eqv (Filters.masked_data inv disp' mask' r c) (Filters.masked_data inv disp mask (ny - 1 - r) c)).
+    { intros r0 c0 Hr0 Hc0. unfold Filters.masked_data. destruct (H r0 c0 Hr0 Hc0) as [H1 ->].
+      destruct (Filters.invalid_px inv (mask (ny - 1 - r0) c0)); [exact I|exact H1]. }
+    rewrite !bilateral_at_px. cbv zeta.
+    rewrite (oq_eqv_none _ _ (Hmd r c Hr Hc)).
+    destruct (Filters.is_none (Filters.masked_data inv disp mask (ny - 1 - r) c)) eqn:En; [apply H; assumption|].
+    replace ((off <=? ny - 1 - r) && (ny - 1 - r <? off + (ny - win + 1)))
+      with ((off <=? r) && (r <? off + (ny - win + 1))) by lia.
+    destruct ((off <=? r) && (r <? off + (ny - win + 1)) && (off <=? c) && (c <? off + (nx - win + 1))) eqn:Ei;
+      [|apply Hmd; assumption].
+    unfold Filters.bilateral_at.
+    replace (r - off + off) with r by lia. replace (c - off + off) with c by lia.
+    replace (ny - 1 - r - off + off) with (ny - 1 - r) by lia.
+    pose proof (Hmd r c Hr Hc) as E0.
+    destruct (Filters.masked_data inv disp' mask' r c) as [cv'|], (Filters.masked_data inv disp mask (ny - 1 - r) c) as [cv|];
+      cbn in E0; try tauto.
+    unfold oq_eqv. apply bil_terms_flip; [exact E0|].
+    intros a b Ha Hb. replace (ny - 1 - r - off + (win - 1 - a)) with (ny - 1 - (r - off + a)) by lia.
+    apply Hmd; lia.
+  Qed.
+End BilateralFlip.
+
+(* the step, on rasters of nr x nc pixels *)
+Definition bil_flip_ok (nr nc : Z) (sigma : Q) (sk : Z -> Z -> Q) (rk : Q -> Q) : Prop :=
+  let win := Filters.win_width nr nc sigma in
+  0 < win /\ Z.odd win = true /\
+  (forall a b, 0 <= a < win -> 0 <= b < win -> (sk (win - 1 - a)%Z b == sk a b)%Q) /\
+  (forall x y, (x == y)%Q -> (rk x == rk y)%Q).
+
+Theorem bilateral_step_flip : forall inv B sigma sk rk nr nc, 1 <= B -> bil_flip_ok nr nc sigma sk rk ->
+  flip_ok_at nr nc pix_eqv (bilateral_step inv B sigma sk rk).
+Proof.
+  intros inv B sigma sk rk nr nc HB (H1 & H2 & H3 & H4) F' F Enr Enc HF r c Hin.
+  pose proof (fl_nr F' F HF) as En. pose proof (fl_nc F' F HF) as Ec.
+  pose proof (fl_at F' F HF r c Hin) as Hp. destruct Hin as [Hr Hc].
+  unfold bilateral_step. cbv zeta. rewrite En, Ec, Enr, Enc in *. rewrite (eqv_fL _ _ Hp), (eqv_fR _ _ Hp).
+  apply set_disp_eqv; [exact Hp| |].
+  - unfold frow. rewrite Enr. apply (bilateral_map_flip inv B sigma sk rk nr nc); try assumption.
+    intros r0 c0 Hr0 Hc0. pose proof (fl_at F' F HF r0 c0) as H0. unfold in_frame, fld, frow in *. rewrite Enr, Enc in H0.
+    specialize (H0 (conj Hr0 Hc0)). split; [apply eqv_dL, H0|apply eqv_fL, H0].
+  - unfold frow. rewrite Enr. apply (bilateral_map_flip inv B sigma sk rk nr nc); try assumption.
+    intros r0 c0 Hr0 Hc0. pose proof (fl_at F' F HF r0 c0) as H0. unfold in_frame, fld, frow in *. rewrite Enr, Enc in H0.
+    specialize (H0 (conj Hr0 Hc0)). split; [apply eqv_dR, H0|apply eqv_fR, H0].
+Qed.
